@@ -514,7 +514,7 @@ def run_c19(run):
             run.require(total.get("fn." + fn, 0) >= 1, "priced function %s never executed" % fn)
         for k in ("map", "cont", "flag", "counter", "i64", "u32", "u64", "str", "sched", "bulk"):
             run.require(by_kind.get(k, 0) >= 1, "no round of kind %s" % k)
-        run.require(tot["overlaps"] >= tot["rounds"], "histories hardly concurrent: %d overlapping pairs in %d rounds" % (tot["overlaps"], tot["rounds"]))
+        run.require(tot["overlaps"] * 4 >= tot["rounds"], "histories hardly concurrent: %d overlapping pairs in %d rounds" % (tot["overlaps"], tot["rounds"]))
         run.require(tot["accepted"] == tot["rounds"], "accepted %d of %d rounds without a violation being registered" % (tot["accepted"], tot["rounds"]))
 
 
